@@ -8,6 +8,7 @@ import (
 	"encoding/json"
 	"flag"
 	"fmt"
+	"math/big"
 	"os"
 	"sync"
 
@@ -94,6 +95,30 @@ func maybeNil(r interface{ Intn(int) int }, b []byte) []byte {
 	return b
 }
 
+var lowOrder = map[int][][]byte{
+	32: {make([]byte, 32), append([]byte{1}, make([]byte, 31)...), vlib.UnHex("e0eb7a7c3b41b8ae1656e3faf19fc46ada098deb9c32b1fd866205165f49b800"),
+		vlib.UnHex("5f9c95bca3508c24b1d0b1559c83ef5b04445cc4581c8e86d8224eddd09f1157"),
+		vlib.UnHex("ecffffffffffffffffffffffffffffffffffffffffffffffffffffffffffff7f"), vlib.UnHex("edffffffffffffffffffffffffffffffffffffffffffffffffffffffffffff7f")},
+	56: {make([]byte, 56), append([]byte{1}, make([]byte, 55)...), le448(-1), le448(0), le448(1)},
+}
+
+// le448 returns p + d, p = 2^448 - 2^224 - 1, as 56 little-endian bytes
+func le448(d int64) []byte {
+	p := new(big.Int).Sub(new(big.Int).Sub(new(big.Int).Lsh(big.NewInt(1), 448), new(big.Int).Lsh(big.NewInt(1), 224)), big.NewInt(1))
+	b := p.Add(p, big.NewInt(d)).FillBytes(make([]byte, 56))
+	for i, j := 0, 55; i < j; i, j = i+1, j-1 {
+		b[i], b[j] = b[j], b[i]
+	}
+	return b
+}
+
+func must(b []byte, err error) []byte {
+	if err != nil {
+		panic(err)
+	}
+	return b
+}
+
 func main() {
 	sf := flag.String("suites", "", "suites.json from TLC")
 	out := flag.String("out", "trace.ndjson", "")
@@ -114,7 +139,7 @@ func main() {
 	var mu sync.Mutex
 	var wg sync.WaitGroup
 	sem := make(chan struct{}, 16)
-	devs := []string{"none", "skR", "info", "psk", "psk_id", "mode", "pkS", "enc"}
+	devs := []string{"none", "skR", "info", "psk", "psk_id", "mode", "pkS", "pkS-low-order", "enc"}
 	for si, s := range suites {
 		si, s := si, s
 		wg.Add(1)
@@ -288,6 +313,18 @@ func main() {
 							}
 						case "pkS":
 							rpkS, _ = sch.DeriveKeyPair(vlib.Bytes(rng, sch.SeedSize()))
+						case "pkS-low-order":
+							// a sender identity of low order makes DH(skR, pkS) all zero: RFC 9180 7.1.4 demands an error (X25519 / X448 KEMs)
+							isAuthHere := mode >= 2
+							lows := lowOrder[len(must(pkS.MarshalBinary()))]
+							if !isAuthHere || len(lows) == 0 {
+								continue
+							}
+							lp, err := sch.UnmarshalBinaryPublicKey(lows[rng.Intn(len(lows))])
+							if err != nil {
+								continue // refused at decoding: fine
+							}
+							rpkS = lp
 						case "enc":
 							renc = append([]byte{}, enc...)
 							renc[rng.Intn(len(renc))] ^= 1 << uint(rng.Intn(8))
@@ -302,7 +339,7 @@ func main() {
 							}
 						}
 						applies := dev == "none" || dev == "skR" || dev == "info" || dev == "mode" || dev == "enc" ||
-							(dev == "pkS" && isAuth) || ((dev == "psk" || dev == "psk_id") && isPsk && pskp == "both")
+							((dev == "pkS" || dev == "pkS-low-order") && isAuth) || ((dev == "psk" || dev == "psk_id") && isPsk && pskp == "both")
 						if !applies {
 							continue
 						}
